@@ -1,7 +1,10 @@
 package expr
 
 import (
+	"errors"
 	"fmt"
+
+	"github.com/shopspring/decimal"
 
 	"github.com/verily-src/fhirpath-go/fhirpath/system"
 )
@@ -115,6 +118,9 @@ func EvaluateMul(lhs, rhs system.Any) (system.Any, error) {
 
 // EvaluateDiv takes in two system types, and calls the appropriate Div method.
 func EvaluateDiv(lhs, rhs system.Any) (system.Any, error) {
+	if isZero(rhs) {
+		return nil, errDivideByZero
+	}
 	switch left := lhs.(type) {
 	case system.Integer:
 		if right, ok := rhs.(system.Integer); ok {
@@ -141,6 +147,9 @@ func EvaluateDiv(lhs, rhs system.Any) (system.Any, error) {
 
 // EvaluateFloorDiv takes in two system types, and calls the appropriate FloorDiv method.
 func EvaluateFloorDiv(lhs, rhs system.Any) (system.Any, error) {
+	if isZero(rhs) {
+		return nil, errDivideByZero
+	}
 	switch left := lhs.(type) {
 	case system.Integer:
 		if right, ok := rhs.(system.Integer); ok {
@@ -167,6 +176,9 @@ func EvaluateFloorDiv(lhs, rhs system.Any) (system.Any, error) {
 
 // EvaluateMod takes in two system types, and calls the appropriate Mod method.
 func EvaluateMod(lhs, rhs system.Any) (system.Any, error) {
+	if isZero(rhs) {
+		return nil, errDivideByZero
+	}
 	switch left := lhs.(type) {
 	case system.Integer:
 		if right, ok := rhs.(system.Integer); ok {
@@ -194,4 +206,19 @@ func EvaluateMod(lhs, rhs system.Any) (system.Any, error) {
 // typeMismatch generates an unsupported operation error.
 func typeMismatch(op Operator, lhs, rhs system.Any) error {
 	return fmt.Errorf("%w: %T %s %T", system.ErrTypeMismatch, lhs, op, rhs)
+}
+
+// errDivideByZero is mapped to an empty result by ArithmeticExpression:
+// "If the divisor is 0, the result is empty" for '/', 'div' and 'mod'.
+var errDivideByZero = errors.New("division by zero")
+
+// isZero reports whether the divisor is an Integer or Decimal zero.
+func isZero(value system.Any) bool {
+	switch v := value.(type) {
+	case system.Integer:
+		return v == 0
+	case system.Decimal:
+		return decimal.Decimal(v).IsZero()
+	}
+	return false
 }
